@@ -88,10 +88,23 @@ Fixpoint filt (th : thresholds) (f : fexpr) (r : record) : bool :=
 
 (* ---------------------------------------------------------------- what is streamed *)
 
+(* the C++ shape of a streamed callable.  The model IGNORES it: whatever T is, meta::is_callable<T, std::string()> sends
+   it to the same two operator<< overloads (`if (s) s.sstr() << t();`) — a callable is a callable (LogProofs.callable_kind_irrelevant).
+   The kinds exist so that the harness exercises overload resolution for each of them. *)
+Inductive ckind :=
+| KFunctor      (* function object, temporary *)
+| KLambda       (* lambda, temporary *)
+| KFunPtr       (* plain function, decays to a function pointer *)
+| KStdFunL      (* std::function<std::string()>, variable streamed as an lvalue *)
+| KStdFunR      (* std::function<std::string()>, temporary *)
+| KStdFunCStr   (* std::function<const char*()>, variable *)
+| KConstObj     (* const function object, variable *)
+| KLambdaVar.   (* lambda stored in a variable, streamed as an lvalue *)
+
 Inductive item :=
 | IStr (s : str)                  (* s.sstr() << std::string *)
 | INum (z : Z)                    (* s.sstr() << long long *)
-| ICall (id : nat) (ret : str).   (* a callable (meta::is_callable<T, std::string()>); `id` names it, `ret` is what it returns *)
+| ICall (k : ckind) (id : nat) (ret : str).   (* a callable of shape k; `id` names it, `ret` is what it returns *)
 
 (* decimal rendering of an integer by std::ostream (modelled, tied by correspondence only) *)
 Definition digit (d : N) : byte :=
@@ -116,7 +129,7 @@ Definition dec_of_Z (z : Z) : str :=
 
 (* the text an item contributes to the stringstream *)
 Definition item_text (it : item) : str :=
-  match it with IStr s => s | INum z => dec_of_Z z | ICall _ ret => ret end.
+  match it with IStr s => s | INum z => dec_of_Z z | ICall _ _ ret => ret end.
 
 (* ---------------------------------------------------------------- observable events *)
 
@@ -161,7 +174,7 @@ Definition ss_put (x : sstream) (it : item) : sstream * list event :=
   match ss_s x with
   | Some b =>
       match it with
-      | ICall id ret => (mkSS (ss_r x) (Some (b ++ ret)), [Call id])
+      | ICall _ id ret => (mkSS (ss_r x) (Some (b ++ ret)), [Call id])
       | _ => (mkSS (ss_r x) (Some (b ++ item_text it)), [])
       end
   | None => (x, [])
